@@ -12,6 +12,11 @@
     parse <disk|mem> <cached 0|1> <ok | exc spec>          → outcome            (mem: the generated `parserMemHandlers`)
     loadsrc <hex>                                          → <hex>              (the text handed to lark)
     modload <registered 0|1> <registered-after-libs 0|1> <libs> <load> <body> <unload>   (each ok | exc spec)   → outcome
+    unloadg <graph> <libs> <registry> <module>             → ok <registry> <loader.unload order> | out-of-fuel   (graph a:b,c;b:a  lists a,b  - = empty)
+    loadg <graph> <libs> <registry> <module> <fuel>        → ok <registry> <loader.load order> | out-of-fuel
+    strace <rootdirhex> <texthex>|<- or pathhex,linehex,funchex> …   → ok <hex>|… | raise <display>
+    render <rootdirhex> <namehex> <quotation: ok | ok hex|… | x:<exc spec>> <k> <entry>*k <arg>…   → ok <hex> | raise <display>
+    main  <render: ok | exc spec> <load>|<transpile>|<write> …        → done <n> | reported <display> | crashed <display>
     loop  <in> <in> …                                      → <running|quit|died <display>> <consumed>
                                                                                in = exit | interrupt | code|<ok | exc spec>|<ok | exc spec>
     msg   <arg> <arg> …                                    → ok <hex> | raise <display>      arg = s:<hex> | o:<hex> | x:<reprhex>:<exc spec>
@@ -19,6 +24,7 @@
 -/
 import Tranp.Driver.Common
 import Tranp.Model.Errors
+import Tranp.Model.ErrorsRun
 
 namespace Tranp.Driver.Errors
 open Tranp Tranp.Errors Tranp.Generated.ErrorsTable Tranp.Driver
@@ -124,6 +130,54 @@ def showStatus : Status → String
   | .quit => "quit"
   | .died x => "died " ++ x.cls.display
 
+/-- `a:b,c;b:a` (plain ASCII module names; `-` = empty) -/
+def parseGraph (s : String) : Graph :=
+  if s == "-" then [] else
+  (s.splitOn ";").filterMap fun item =>
+    match item.splitOn ":" with
+    | [m, is] => some (s2l m, if is == "" then [] else (is.splitOn ",").map s2l)
+    | _ => none
+
+def parseNames (s : String) : List Str := if s == "-" then [] else (s.splitOn ",").map s2l
+def showNames (xs : List Str) : String := if xs.isEmpty then "-" else ",".intercalate (xs.map l2s)
+
+def showWalk : Option (List Str × List Str) → String
+  | none => "out-of-fuel"
+  | some (reg, trace) => s!"ok {showNames reg} {showNames trace}"
+
+def parseFrame (s : String) : Option (Option (Str × Str × Str)) :=
+  if s == "-" then some none else
+  match s.splitOn "," with
+  | [a, b, c] => match Str.unhex a, Str.unhex b, Str.unhex c with
+    | some x, some y, some z => some (some (x, y, z))
+    | _, _, _ => none
+  | _ => none
+
+def parseEntry (s : String) : Option TraceEntry :=
+  match s.splitOn "|" with
+  | [t, f] => match Str.unhex t, parseFrame f with
+    | some tt, some ff => some ⟨tt, ff⟩
+    | _, _ => none
+  | _ => none
+
+def showLines : Except Exc (List Str) → String
+  | .ok out => if out.isEmpty then "ok" else "ok " ++ "|".intercalate (out.map Str.hex)
+  | .error x => "raise " ++ x.cls.display
+
+/-- `ok`, `ok hex|hex…` or `x:<exc spec>` -/
+def parseLinesResult (s : String) : Option (Except Exc (List Str)) :=
+  if s == "ok" then some (.ok [])
+  else if s.startsWith "ok " then ((s.drop 3).toString.splitOn "|").mapM Str.unhex |>.map .ok
+  else if s.startsWith "x:" then (parseExc (s.drop 2).toString).map .error
+  else none
+
+def parseTarget (s : String) : Option Target :=
+  match s.splitOn "|" with
+  | [a, b, c] => match parseResult a, parseResult b, parseResult c with
+    | some x, some y, some z => some ⟨x, y, z⟩
+    | _, _, _ => none
+  | _ => none
+
 def step (_ : Unit) : List String → Unit × String
   | ["isa", c, t] =>
     match parseCls (c.splitOn " "), atomOf? (t.splitOn " ") with
@@ -155,6 +209,35 @@ def step (_ : Unit) : List String → Unit × String
         ((), showOutcome (modulesLoad (reg == "1") (regAfter == "1") a b c d))
       else ((), "bad-op")
     | _, _, _, _ => ((), "bad-op")
+  | ["unloadg", g, libs, reg, p] =>
+    let r := parseNames reg
+    ((), showWalk (unloadCurrent (parseGraph g) (parseNames libs) (r.length + 1) r (s2l p)))
+  | ["loadg", g, libs, reg, p, fuel] =>
+    match fuel.toNat? with
+    | some f => ((), showWalk (loadFuel (parseGraph g) (parseNames libs) modulesLoadRechecks f (parseNames reg, []) (s2l p)))
+    | none => ((), "bad-op")
+  | "strace" :: root :: entries =>
+    match Str.unhex root, entries.mapM parseEntry with
+    | some r, some es => ((), showLines (buildStacktrace r es))
+    | _, _ => ((), "bad-op")
+  | "render" :: root :: name :: quot :: n :: rest =>
+    match Str.unhex root, Str.unhex name, parseLinesResult quot, n.toNat? with
+    | some r, some nm, some q, some k =>
+      match (rest.take k).mapM parseEntry, (rest.drop k).mapM parseArg with
+      | some es, some as =>
+        match renderWith messageStrFallback r es q nm as with
+        | .ok t => ((), "ok " ++ Str.hex t)
+        | .error x => ((), "raise " ++ x.cls.display)
+      | _, _ => ((), "bad-op")
+    | _, _, _, _ => ((), "bad-op")
+  | "main" :: render :: targets =>
+    match parseResult render, targets.mapM parseTarget with
+    | some rd, some ts =>
+      match mainRun ts (fun _ => rd) with
+      | .done n => ((), s!"done {n}")
+      | .reported x => ((), "reported " ++ x.cls.display)
+      | .crashed x => ((), "crashed " ++ x.cls.display)
+    | _, _ => ((), "bad-op")
   | "loop" :: ins =>
     match ins.mapM parseInput with
     | some is => let r := run is; ((), s!"{showStatus r.1} {r.2}")
